@@ -209,12 +209,36 @@ def run(prog, rep):
                "%s does not forward key_destroy_func/value_destroy_func in the right positions" % fname, f.loc[0])
     rep.floor("C14.3", 4)
     rep.floor("C14.4", 9)
+    # ---- C14.5: what the notifiers receive is read from a live node --------------------------------
+    rep.rule("C14.5", "live node: in the tree units no path reads a node (its key and value for the notifiers, its links) or releases it again after the node "
+                      "was handed to p_free - the notifiers must receive what the node held, not what the allocator left in the released block")
+    from plint import uaf
+    rel = uaf.releasers_for(prog)
+    n5 = 0
+    for un in ("ptree.c", "ptree-bst.c", "ptree-rb.c", "ptree-avl.c"):
+        tu = prog.unit(un)
+        for fn in sorted(tu.functions.values(), key=lambda f: f.loc[0]):
+            if not any(c.get("callee") in rel for (b, i, c) in fn.calls()):
+                continue
+            n5 += 1
+            ps = uaf.check_function(fn, rel)
+            if ps:
+                k, pth, ln, w, at = ps[0]
+                rep.ob("C14.5", fn, "live", False, "line %d: %s %s after the node was released at line %s: with an allocator that reuses or scrubs freed blocks the "
+                       "notifier receives a pointer that was never stored and the removed pair is never destroyed" % (
+                           ln, pth, {"use": "is read", "double": "is released again", "pass": "is passed to a call", "return": "is returned"}[k], at), ln, w)
+            else:
+                rep.ob("C14.5", fn, "live", True, "nothing of a node is touched after its release", fn.loc[0])
+    rep.floor("C14.5", 4)
 
 
 # generic robustness battery: renaming every local/parameter in these files must not change any verdict
 RENAME_LOCALS = ['src/ptree.c', 'src/ptree-bst.c', 'src/ptree-rb.c', 'src/ptree-avl.c']
 
 SELFTEST = [
+    dict(id="bst-node-freed-before-notifiers", expect="C14.5", edits=[
+        dict(file="src/ptree-bst.c", old="\t*node_pointer = cur_node->left == NULL ? cur_node->right : cur_node->left;\n", new="\t*node_pointer = cur_node->left == NULL ? cur_node->right : cur_node->left;\n\tp_free (cur_node);\n"),
+        dict(file="src/ptree-bst.c", old="\t\tvalue_destroy_func (cur_node->value);\n\n\tp_free (cur_node);\n\n\treturn TRUE;", new="\t\tvalue_destroy_func (cur_node->value);\n\n\treturn TRUE;")]),
     dict(id="bst-copy-without-swap", file="src/ptree-bst.c", expect="C14.1",
          old="\t\tprev_node->key   = tmp_key;\n\t\tprev_node->value = tmp_value;\n", new=""),
     dict(id="rb-destroy-both-pairs", file="src/ptree-rb.c", expect="C14.1",
